@@ -293,7 +293,16 @@ def model_part(ctx):
 
 
 
+def library_unchanged(ctx, fp0):
+    fp1 = alias_run.repo_fingerprint()
+    ctx.extra["library_fingerprint"] = fp1
+    if fp0 != fp1:
+        raise core.MachineryError("the library under %s changed while the check was running (%s -> %s): observations of "
+                                  "one run are not comparable, run the check again" % (core.REPO, fp0, fp1))
+
+
 def replay_part(ctx, rng, focus):
+    fp0 = alias_run.repo_fingerprint()
     # ---------------------------------------------------------------- R: histories generated by TLC
     al = alphabet(ctx.tier)
     if focus:
@@ -344,6 +353,7 @@ def replay_part(ctx, rng, focus):
     thr = [1] * len(hists) + [4] * len(sub) + [16] * len(sub16) + [1] * len(pair_hists)
     cache, allres = run_all(ctx, [by_key[x] for x in used], ctx.pick(1, 2), allh, thr, by_key)
     ctx.extra["distinct_calls_with_fresh_reference"] = len(cache)
+    library_unchanged(ctx, fp0)
     n1, n4, n16 = len(hists), len(sub), len(sub16)
     results = allres[:n1]
     cases = judge(results, "histories_1_thread")
